@@ -30,6 +30,8 @@ func runC16(c *Ctx) {
 	c16MapWriter(c)
 	c16Snapshot(c)
 	c16GroupBit(c)
+	c16SnapshotSameIndexes(c)
+	c16SuccessAlwaysNotified(c)
 }
 
 func c16Threshold(c *Ctx) {
